@@ -141,5 +141,20 @@ pub open spec fn min_us(a: usize, b: usize) -> usize { if a <= b { a } else { b 
 //@|     Some(d) => min_us(text_width_spec(config, &*d, Left), text_width_spec(config, &*d, Right)),
 //@|     None => min_us(config.side_by_side_data.minus.width, config.side_by_side_data.plus.width) }),  // @C07:an.unchanged.line.is.wrapped.to.the.narrower.of.the.two.panels.text.widths.so.its.rows.fit.both
 
+// ---- side_by_side.rs ansifill: with the ANSI fill and an odd width the right panel takes the left-over column
+//@ type src/features/side_by_side.rs ansifill::UseFullPanelWidth noderive
+impl UseFullPanelWidth {
+    //@ fn src/features/side_by_side.rs ansifill::UseFullPanelWidth::is_odd_with_ansi
+    //@| ensures r == (*method == BgFillMethod::TryAnsiSequence && (*width matches Width::Fixed(w) && w % 2 == 1)),  // @C07:the.extra.column.is.used.only.with.the.ansi.fill.and.an.odd.fixed.width
+    //@ fn src/features/side_by_side.rs ansifill::UseFullPanelWidth::adapt_sbs_data
+    //@| requires sbs_data.plus.width < usize::MAX,
+    //@| ensures r.plus.width == sbs_data.plus.width + 1 && r.minus == sbs_data.minus,  // @C07:the.left.over.column.of.an.odd.width.goes.to.the.right.panel
+    //@rewriteall <<<super::>>> => <<<>>>
+    //@ fn src/features/side_by_side.rs ansifill::UseFullPanelWidth::sbs_odd_fix
+    //@| requires sbs_data.plus.width < usize::MAX,
+    //@| ensures (*method == BgFillMethod::TryAnsiSequence && (*width matches Width::Fixed(w) && w % 2 == 1)) ==> r.minus == sbs_data.minus && r.plus.width == sbs_data.plus.width + 1,  // @C07:with.the.ansi.fill.and.an.odd.width.the.two.panels.use.the.full.width
+    //@|         !(*method == BgFillMethod::TryAnsiSequence && (*width matches Width::Fixed(w) && w % 2 == 1)) ==> r == sbs_data,
+}
+
 } // verus!
 fn main() {}
